@@ -268,10 +268,45 @@ func customFunctions() []gojq.CompilerOption {
 	}
 }
 
+var customUse = regexp.MustCompile(`\b(cf|cit|cit3)\b`)
+
 var customProgs = []string{
 	`cf`, `cf(1)`, `cf(1; 2)`, `cf(.a?; .k?)`, `[cit]`, `[cit(1)]`, `[cit(1; 2)]`, `[cit(.a?; .k?)]`, `cit3(1; 2; 3)`, `[cit3(.a?; .k?; .)]`, `[limit(2; cit(1; 2))]`, `[.[]? | cit(.; 2)]`, `[cit(cit(1; 2); 3)]`, `reduce cit(1; 2) as $x (0; . + 1)`,
 	`[cit(1; 2), cit(3; 4)]`, `[cit((1, 2); (3, 4))]`, `cf(cf(1; 2); cf(3; 4))`, `[path(cit(.a?; .k?))]?`, `first(cit(1; 2))`, `[cit(1; 2)] | length`, `try cit(error; 1) catch "E"`, `[foreach cit(1; 2) as $x (0; . + 1)]`, `def w(f): [f]; w(cit(1; 2))`,
 	`[cit(.k?[0]; .k?[1])]`, `[range(3) as $i | cit($i; $i + 1)]`, `[cit("a"; "b")] | tojson`, `{a: cf(1; 2), b: [cit(3; 4)]}`, `[cit3(.; .; .)] | length`, `label $l | cit(1; 2), break $l`, `[cit(1; 2) | cit(.; 5)] | length`,
+}
+
+// long strings: natives switch algorithms or cache by subject beyond some length
+var longStrIn = func() string {
+	var sb strings.Builder
+	for i := 0; sb.Len() < 700; i++ {
+		sb.WriteString([]string{"alpha ", "bété ", "日本語 ", "x,y;", "é", "needle ", "0123 "}[(i*5+i/3)%7])
+	}
+	return `{"s":"` + sb.String() + `","t":"` + strings.Repeat("ab", 200) + `é` + strings.Repeat("cd", 100) + `","n":"é"}`
+}()
+
+var longStrProgs = []string{
+	`.s | index("é")`, `.s | rindex("é")`, `.s | indices("é")`, `.t | index("é"), rindex("cd")`, `.s | indices("needle")`, `[.s, .t] | map(index("é"))`, `.s | test("needle")`, `.s | [match("é"; "g").offset] | length`, `.s | sub("needle"; "N")`, `.s | gsub("é"; "e") | length`,
+	`.s | split(" ") | length`, `.s | [splits(" +")] | length`, `.s | ascii_downcase | length`, `.s | explode | length`, `.s | explode | implode | length`, `.s | ltrimstr("alpha ") | length`, `.s | @base64 | @base64d | length`, `.s | @uri | length`, `.s | tojson | fromjson | length`, `.s | utf8bytelength`,
+	`.s | .[10:40]`, `.s | .[-20:]`, `.s * 2 | length`, `.s | contains("needle")`, `.s | startswith("alpha"), endswith("x")`, `.s + .t | length`, `.s | [scan("[a-z]+")] | length`, `.s | ascii_upcase | index("É")?`, `.s | @html | length`, `.s | @sh | length`, `.s | trim | length`, `.s | ltrimstr(.n) | length`,
+	`.s | index(.n), (.t | index(.n))`, `[.s, .t, .s] | map(indices("é") | length)`, `.s | split("é") | join("e") | length`, `.s | . as $x | .[5:] | index("é")`, `.s | tostring | length`, `[.s | match("(?<w>[a-z]+)"; "g").captures[0].string] | unique | length`, `.s | @json | length`, `.s | @text | length`,
+}
+
+// numbers that keep their literal (json.Number, as the command decodes them), inside arrays that
+// natives compare, sort or normalise
+var literalNumberProgs = []struct{ Src, In string }{
+	{`sort`, `N:[[2,1.0],[1.50,7],[0.10]]`}, {`unique`, `N:[[2,1.0],[1.50,7],[2,1.0]]`}, {`sort_by(.c)`, `N:[{"c":[1.50,2]},{"c":[1.0e0]},{"c":[0.10]}]`}, {`group_by(.c)`, `N:[{"c":[1.50,2]},{"c":[1.0e0]},{"c":[1.50,2]}]`}, {`unique_by(.c)`, `N:[{"c":[1.50,2]},{"c":[1.0e0]}]`},
+	{`min_by(.c), max_by(.c)`, `N:[{"c":[1.50,2]},{"c":[1.0e0]}]`}, {`sort | tojson`, `N:[[1.10],[1.1],[1.100]]`}, {`map(. + 0)`, `N:[1.50,2.0,1e2]`}, {`add`, `N:[1.50,2.0,1e2]`}, {`.[0] < .[1]`, `N:[1.50,2.0]`}, {`tojson`, `N:[1.50,2.0,1e2,100000000000000000000]`},
+	{`map(tostring)`, `N:[1.50,2.0,1e2]`}, {`. == [1.5,2,100]`, `N:[1.50,2.0,1e2]`}, {`index(2)`, `N:[1.50,2.0,1e2]`}, {`min, max`, `N:[1.50,2.0,1e2]`}, {`[.[] | floor]`, `N:[1.50,2.0,1e2]`}, {`to_entries`, `N:{"a":1.50,"b":[2.0]}`}, {`[paths]`, `N:{"a":1.50,"b":[2.0]}`},
+	{`.. |= .`, `N:{"a":1.50,"b":[2.0]}`}, {`walk(.)`, `N:{"a":1.50,"b":[2.0]}`}, {`contains([2])`, `N:[1.50,2.0,1e2]`}, {`inside([1.5,2,100,3])`, `N:[1.50,2.0,1e2]`}, {`flatten`, `N:[[1.50],[2.0,[1e2]]]`}, {`transpose`, `N:[[1.50,2.0],[1e2,3.0]]`}, {`sort_by(.[0])`, `N:[[2.0,1],[1.50,2]]`},
+}
+
+func init() { directed = append(directed, literalNumberProgs...) }
+
+func init() {
+	for _, src := range longStrProgs {
+		directed = append(directed, struct{ Src, In string }{src, longStrIn})
+	}
 }
 
 func init() {
@@ -287,7 +322,11 @@ func buildPool(seed uint64) *pool {
 		if strings.Contains(d.Src, "$v") {
 			ps.VarNames, ps.VarVals = []string{"$v"}, []kernel.ValueSpec{sharedVar}
 		}
-		pl.items = append(pl.items, poolItem{ps, kernel.ValueSpec{JSON: d.In}})
+		in := kernel.ValueSpec{JSON: d.In}
+		if strings.HasPrefix(d.In, "N:") {
+			in = kernel.ValueSpec{JSON: d.In[2:], Num: "jsonnumber"} // numbers as the command decodes them: literals kept
+		}
+		pl.items = append(pl.items, poolItem{ps, in})
 	}
 	for _, b := range workload.BigOperands {
 		ps := ProgSpec{Src: b.Src, VarNames: workload.BigVarNames, VarVals: []kernel.ValueSpec{{JSON: workload.BigVarVals[0], Spare: 3}, {JSON: workload.BigVarVals[1]}}}
@@ -493,7 +532,10 @@ func compileProg(p ProgSpec) (*compiled, error) {
 	if err != nil {
 		return nil, err
 	}
-	opts := customFunctions()
+	var opts []gojq.CompilerOption
+	if customUse.MatchString(p.Src) {
+		opts = customFunctions() // only where they are used: a compiler with callbacks takes other paths (builtins, inlining)
+	}
 	if len(p.VarNames) > 0 {
 		opts = append(opts, gojq.WithVariables(p.VarNames))
 	}
